@@ -15,6 +15,11 @@ mod common;
 mod nrpn;
 #[cfg(feature = "cfg_std")]
 mod polling;
+#[cfg(feature = "cfg_std")]
+mod scanners;
+mod generated {
+    pub mod consts;
+}
 mod rng;
 
 use common::*;
@@ -27,6 +32,8 @@ pub fn exec(tag: i64, inp: &[i64]) -> Vec<i64> {
         90 | 100 | 101 | 110 => nrpn::exec(tag, inp),
         #[cfg(feature = "cfg_std")]
         120 | 130 | 131 | 132 | 140 => polling::exec(tag, inp),
+        #[cfg(feature = "cfg_std")]
+        150 | 160 | 161 | 162 | 170 => scanners::exec(tag, inp),
         _ => vec![-97],
     }
 }
@@ -42,6 +49,12 @@ fn gen(prop: &str, tier: Tier, seed: u64, em: &mut Emitter) {
         "C13" => polling::gen_c13(tier, seed, em),
         #[cfg(feature = "cfg_std")]
         "C14" => polling::gen_c14(tier, seed, em),
+        #[cfg(feature = "cfg_std")]
+        "C15" => scanners::gen_c15(tier, seed, em),
+        #[cfg(feature = "cfg_std")]
+        "C16" => scanners::gen_c16(tier, seed, em),
+        #[cfg(feature = "cfg_std")]
+        "C17" => scanners::gen_c17(tier, seed, em),
         _ => {
             eprintln!("unknown property {}", prop);
             std::process::exit(2);
